@@ -501,8 +501,10 @@ def c03_derived_constructors(tier, seed):
 
             def via_json():
                 return json_graph.node_link_graph(json.loads(json.dumps(json_graph.node_link_data(G))))
-            made += [('read_snapshots(write_snapshots)', via_snapshots), ('read_interactions(write_interactions)', via_interactions),
-                     ('node_link_graph(node_link_data)', via_json)]
+            made.append(('node_link_graph(node_link_data)', via_json))
+            if all(isinstance(n, int) and not isinstance(n, bool) for n in G.nodes()):
+                # (the edge-list files carry node ids as text: the round trip with nodetype=int is only meaningful for int ids)
+                made += [('read_snapshots(write_snapshots)', via_snapshots), ('read_interactions(write_interactions)', via_interactions)]
             src_ids = set(id(iv) for tl in timelines(G).values() for iv in tl) | set(id(tl) for tl in timelines(G).values())
             for name, mk in made:
                 col.seen((sk, name), True, {'class': cls, 'history': h, 'constructor': name})
